@@ -174,6 +174,34 @@ func run(c *fw.Ctx) {
 		bd = append(bd, fmt.Sprintf("%s: L<=%d pages=%v codecs=%v", g.target, g.maxL, g.pages, g.codecs))
 	}
 	c.Bound("configs", bd)
+	// a few long histories around the default page size (1000 records): the
+	// enumerated histories above stay far below it
+	for _, tn := range []string{"mini", "one", "rbool"} {
+		if !sut.Has(tn) {
+			continue
+		}
+		for hi, h := range []string{
+			strings.Repeat("A", 1000) + "W",
+			strings.Repeat("A", 999) + "WAW",
+			strings.Repeat("A", 1001) + "W" + strings.Repeat("A", 1000) + "W",
+			strings.Repeat("A", 2000) + "WA",
+			strings.Repeat("A", 1000) + "W" + strings.Repeat("A", 1000) + "W" + strings.Repeat("A", 7) + "W",
+		} {
+			for _, page := range []int{0, 500} {
+				if !c.Mine() {
+					continue
+				}
+				hc := hcase{tn, h, page, 1}
+				c.Eval()
+				c.Count("states", 1)
+				c.Count("traces_validated_against_impl", 1)
+				c.Distinct(fmt.Sprintf("%s|long%d|%d", tn, hi, page))
+				for _, f := range runHistory(hc) {
+					c.Violate(fmt.Sprintf("%s|%s|%s|long history", tn, f.Class, f.Code), f.String()+fmt.Sprintf("\nhistory of %d operations (long history %d) page=%d codec=1", len(h), hi, page), "history", hc)
+				}
+			}
+		}
+	}
 	for _, g := range cfgs {
 		for l := 0; l <= g.maxL; l++ {
 			for x := uint32(0); x < 1<<uint(l); x++ {
@@ -238,7 +266,7 @@ func Main() {
 	fw.Main(fw.Spec{
 		ID:    "C06",
 		Level: "model_checking",
-		Rule: "explicit-state exploration of the writer API on the real generated writer: every history over {Add(next distinct record), Write} of length <= L (a state is a history; successor = replay on a fresh writer + one op), Close applied at every state, x page sizes x codecs. " +
+		Rule: "explicit-state exploration of the writer API on the real generated writer: every history over {Add(next distinct record), Write} of length <= L (a state is a history; successor = replay on a fresh writer + one op), Close applied at every state, x page sizes x codecs, plus five long histories around the default page size of 1000 records. " +
 			"Oracle = list-of-batches model: file valid; one row group per non-empty batch, in order, holding exactly that batch (reference decode per row group and generated reader overall); footer row counts = rows stored; pending records absent. distinct = (target, history, page size, codec)",
 		Assumptions: []string{
 			"histories longer than L and page sizes above the listed ones are not explored; records rotate through 8 structurally different shapes with position-unique leaf values so loss, duplication and reordering are observable",
